@@ -612,7 +612,9 @@ theorem fromJ_CJ (S : Schema) (T : Txt) (D : List Val) (H : JHyp S T D) : ∀ (n
             rw [fromJ] at h
             simp only [jsonKeysOf] at hkey
             simp only [hkey, Bool.not_true, Bool.false_eq_true, if_false, hfind] at h
-            exact ihtl m acc v hacc h
+            split at h
+            · exact ihtl m acc v hacc h
+            · cases h
           | some hit =>
             rw [fromJ_step S T D m acc k jv tl hit hkey hfind] at h
             split at h
@@ -640,7 +642,9 @@ theorem fromJ_CJ (S : Schema) (T : Txt) (D : List Val) (H : JHyp S T D) : ∀ (n
         · rw [fromJ] at h
           simp only [jsonKeysOf] at hkey
           simp only [hkey, Bool.not_false, if_true] at h
-          exact ihtl m acc v hacc h
+          split at h
+          · exact ihtl m acc v hacc h
+          · cases h
       | _ => simp [fromJ] at h
     · intro j hn sub g m' c x hty hc hj h
       cases j with
